@@ -4,11 +4,12 @@ from gen_util import *
 from srp_cases import *
 import pyref
 
-MODULES = ["WowSrp.Props.C05"]
-THEOREMS = ["C05_verdict", "C05_proof_layout", "C05_verdict_iff", "C05_refresh", "C05_history_list", "C05_history", "C05_state_after", "C05_legit_forever", "C05_legit_run", "C05_changed_proof_refused", "C05_flipped_proof_refused", "C05_flipped_proof_refused_160", "C05_other_inputs_collision", "C05_replay", "C05_replay_in_history", "C05_wrong_key", "C05_wrong_username", "C05_changed_client_data"]
+MODULES = ["WowSrp.Props.C05", "WowSrp.Props.SourceLayout"]
+THEOREMS = ["C05_verdict", "C05_proof_layout", "C05_verdict_iff", "C05_refresh", "C05_history_list", "C05_history", "C05_state_after", "C05_legit_forever", "C05_legit_run", "C05_changed_proof_refused", "C05_flipped_proof_refused", "C05_flipped_proof_refused_160", "C05_other_inputs_collision", "C05_replay", "C05_replay_in_history", "C05_wrong_key", "C05_wrong_username", "C05_changed_client_data", "C05_source_layout", "source_constants_complete"]
 RULE = ("random histories of reconnect attempts after a full login (injected salt/a/b/challenge and one injected 16-byte draw per attempt): "
         "kinds {correct for the current challenge, replay of any earlier pair, proof for a stale challenge, wrong session key, wrong username, "
-        "single-bit change of proof / of client data}; verdict sequence and the challenge after every attempt recomputed independently; "
+        "single-bit change of proof / of client data, client data equal to the current or an earlier server challenge (right and wrong proof), usernames "
+        "ending in spaces / punctuation}; verdict sequence and the challenge after every attempt recomputed independently; "
         "client side: calculate_reconnect_values with injected client challenge. distinct = distinct histories; non-trivial = length >= 2")
 EXPLANATION = "history theorem (verdict i iff proof hashes the draw made after attempt i-1; challenge replaced after every attempt; legitimate client accepted forever; accepted replay under a different challenge yields an explicit SHA-1 collision) + differential run + Python oracle"
 ASSUMPTIONS = ["residual outside the model: the RNG repeating a 128-bit challenge"]
@@ -18,6 +19,8 @@ def flip(b, i):
 
 def history_case(rng, maxlen):
     us, ps = cred(rng), cred(rng)
+    if rng.random() < 0.15:
+        us = (cred(rng, 1, 12) + rng.choice([" ", "  ", " x ", ".", "~"]))[:16]
     salt, b, a, chal0 = rbytes(rng, 32), rbytes(rng, 32), rbytes(rng, 32), rbytes(rng, 16)
     s = pyref.Session(us, ps, salt, b, a)
     if s.A % N == 0 or s.B % N == 0: return None
@@ -30,7 +33,15 @@ def history_case(rng, maxlen):
     for i in range(k):
         r = rng.random()
         cd = rbytes(rng, 16)
-        if r < 0.35 or not hist:
+        if r < 0.06:
+            # the client's challenge bytes are arbitrary 16 bytes: in particular they may equal the server
+            # challenge on offer (anyone who saw the challenge can send it back), with a right or a wrong proof
+            kind = "cd-equals-server-challenge"; cd = cur
+            proof = pyref.reconnect_proof(s.U, cd, cur, s.K) if rng.random() < 0.5 else rbytes(rng, 20)
+        elif r < 0.1 and hist:
+            kind = "cd-equals-earlier-challenge"; cd = rng.choice(chals)
+            proof = pyref.reconnect_proof(s.U, cd, cur, s.K) if rng.random() < 0.5 else rbytes(rng, 20)
+        elif r < 0.35 or not hist:
             kind = "correct"; proof = pyref.reconnect_proof(s.U, cd, cur, s.K)
         elif r < 0.55:
             kind = "replay"; cd, proof = rng.choice(hist)
